@@ -148,6 +148,8 @@ def feature_spec(draw, name, kind, blocks, dev_mode, dev_blocks, quant_pools=Non
         else:
             values = draw(st.permutations(NUM_CAT_POOLS[flavour]))[:n_mod]
         spec["flavour"] = flavour
+        if flavour in ("ints", "floats", "flags") and draw(st.booleans()):
+            spec["dtype"] = "native"  # int64 / float64 column instead of python numbers in an object column
         wpool = WEIGHTS
     else:
         raise ValueError(kind)
@@ -334,6 +336,12 @@ def _column(values, idx, kind, dtype=None):
         if dtype == "float32":
             return col.astype("float32")
         return col
+    if dtype == "native" and all(isinstance(v, (int, float)) and not isinstance(v, bool) for v in values):
+        # the column as pandas would read it from a file: int64 without missing values, float64 otherwise
+        # (integer codes then become integer-valued floats)
+        if not missing.any() and all(isinstance(v, int) for v in values):
+            return np.array([values[i] for i in idx], dtype="int64")
+        return np.array([np.nan if i < 0 else float(values[i]) for i in idx], dtype="float64")
     out = np.empty(len(idx), dtype=object)
     for n, i in enumerate(idx):
         out[n] = np.nan if i < 0 else values[i]
